@@ -349,6 +349,20 @@ func (st *ServerStream) readerRemove(ss *ServerSession) {
 	st.readerRemoveUnsafe(ss)
 }
 
+// multicastDestination returns the multicast address and ports of a media,
+// or false when the multicast writers are gone because the stream has been closed.
+func (st *ServerStream) multicastDestination(medi *description.Media) (net.IP, int, int, bool) {
+	st.mutex.RLock()
+	defer st.mutex.RUnlock()
+
+	w := st.medias[medi].multicastWriter
+	if w == nil {
+		return nil, 0, 0, false
+	}
+
+	return w.ip, w.rtpPort, w.rtcpPort, true
+}
+
 func (st *ServerStream) readerRemoveUnsafe(ss *ServerSession) {
 	delete(st.readers, ss)
 
